@@ -107,14 +107,31 @@ Text(c) ==
     [] c = "UseHp"    -> "---@type Foo\nlocal f\nlocal h = f.hp\n"
     [] c = "ClsTab"   -> "---@class Tab\nTab = {}\n"
     [] c = "UseCy"    -> "local t = Tab.x\nlocal g = GG\n---@type Foo\nlocal f\nlocal v = f.bar\n"
+    \* second seeded round.  C08: the SAME member of a global instance defined in two files; the class of the
+    \* instance and the (inferred) binding of the global live in a third file
+    [] c = "ObjDef"   -> "---@class Obj\n\n---@return Obj\nlocal function new_obj() end\n\nobj = new_obj()\n"
+    [] c = "ObjBar1"  -> "function obj.bar() return 1 end\n"
+    [] c = "ObjBar2"  -> "function obj.bar() return \"x\" end\n"
+    [] c = "UseObj"   -> "local f = obj.bar\nlocal r = obj.bar()\n"
+    \* C10: a `---@meta` file and an ordinary file define the same member of the class table
+    [] c = "MetaX"    -> "---@meta\nTab.x = 1\n"
+    [] c = "TabX"     -> "Tab.x = \"a\"\n"
+    [] c = "UseTabX"  -> "local v = Tab.x\n"
+    \* C11: library roots; a library that requires the INFERRED export of another library and publishes it
+    [] c = "ExpX"     -> "return { x = 1 }\n"
+    [] c = "GReqA"    -> "local m = require(\"a\")\nLV = m.x\n"
+    [] c = "GReqB"    -> "local m = require(\"b\")\nLV = m.x\n"
+    [] c = "UseLV"    -> "local v = LV\nlocal w = v + 1\n"
     [] IsCy(c)        -> CyBody(CyKind(c)) \o "\nlocal other = require(\"" \o CyTarget(c) \o "\")\nreturn {}\n"
     [] OTHER          -> ""
 AllContents == {"ClsDoc", "ClsDoc2", "ClsPlain", "ClsField", "GInt", "GStr", "ReqB", "Mod", "Alias", "Enum",
                 "DiagOff", "Undef", "UseFoo", "ClsSub", "ReqA",
                 "GenBox", "BoxExt", "GenAlias", "UseBox", "ClsOp", "ClsOp2", "UseOp", "ClsTab", "UseCy",
-                "Base", "FooInh", "UseHp"} \cup CyAll
-TypeNames == {"Foo", "Id", "Color", "Bar", "Box", "Opt", "Tab", "Base"}
-GlobalNames == {"GG", "Tab"}
+                "Base", "FooInh", "UseHp",
+                "ObjDef", "ObjBar1", "ObjBar2", "UseObj", "MetaX", "TabX", "UseTabX",
+                "ExpX", "GReqA", "GReqB", "UseLV"} \cup CyAll
+TypeNames == {"Foo", "Id", "Color", "Bar", "Box", "Opt", "Tab", "Base", "Obj"}
+GlobalNames == {"GG", "Tab", "obj", "LV"}
 
 CyFld(c) == IsCy(c) /\ CyKind(c) \in {"FldInt", "FldStr"}
 CyGlob(c) == IsCy(c) /\ CyKind(c) \in {"GInt", "GStr"}
@@ -123,6 +140,7 @@ Decl(c)  == CASE c \in {"ClsDoc", "ClsDoc2", "ClsPlain", "ClsField", "ClsOp", "C
               [] c = "Base" -> {"Base"}
               [] c = "Alias" -> {"Id"} [] c = "Enum" -> {"Color"} [] c = "ClsSub" -> {"Bar"}
               [] c \in {"GenBox", "BoxExt"} -> {"Box"} [] c = "GenAlias" -> {"Opt"} [] c = "ClsTab" -> {"Tab"}
+              [] c = "ObjDef" -> {"Obj"}
               [] CyFld(c) -> {"Foo"} [] OTHER -> {}
 Sup(c)   == CASE c = "ClsSub" -> {<<"Bar", "Foo">>} [] c = "FooInh" -> {<<"Foo", "Base">>} [] OTHER -> {}
 Desc(c)  == CASE c = "ClsDoc" -> "Hello doc" [] c = "ClsDoc2" -> "Other doc" [] OTHER -> ""
@@ -130,13 +148,23 @@ Mem(c)   == CASE c = "ClsField" -> {<<"Foo", "bar">>}
               [] c = "Enum" -> {<<"Color", "Red">>, <<"Color", "Green">>}
               [] c = "GenBox" -> {<<"Box", "value">>} [] c = "BoxExt" -> {<<"Box", "label">>}
               [] c = "Base" -> {<<"Base", "hp">>}
+              [] c = "MetaX" -> {<<"Tab", "x">>}      \* MetaDefine is a declaration: always listed, ordered by (file, position)
               [] CyFld(c) -> {<<"Foo", "bar">>} [] OTHER -> {}
 \* `Tab.x = v`: a non-declaration member; its owner is resolved by the Lua pipeline (phase 2)
-LMem(c)  == IF CyMem(c) THEN {<<"Tab", "x">>} ELSE {}
-NMem(c)  == CASE c \in {"ClsField", "Mod", "GenBox", "BoxExt", "Base"} -> 1 [] c = "Enum" -> 2    \* entries of `members`
+LMem(c)  == IF CyMem(c) \/ c = "TabX" THEN {<<"Tab", "x">>} ELSE {}
+\* `function obj.bar()`: a member of the global path `obj` (<<global, key>>); GBind: the file binds the INFERRED type
+\* of the global's declaration to a class (<<global, type>>), which migrates the members of the path to the class
+GMem(c)  == IF c \in {"ObjBar1", "ObjBar2"} THEN {<<"obj", "bar">>} ELSE {}
+GBind(c) == IF c = "ObjDef" THEN {<<"obj", "Obj">>} ELSE {}
+\* `LV = require("r").x`: the global's inferred type is the literal 1 when the module r has been analysed (its
+\* export `{ x = 1 }` inferred) before this file's Lua pipeline runs, else the unresolved require is forced to any
+GVal(c)  == CASE c = "GReqA" -> {<<"LV", "a">>} [] c = "GReqB" -> {<<"LV", "b">>} [] OTHER -> {}
+Exports(c) == c = "ExpX"
+NMem(c)  == CASE c \in {"ClsField", "Mod", "GenBox", "BoxExt", "Base", "ObjBar1", "ObjBar2", "MetaX", "TabX", "ExpX"} -> 1 [] c = "Enum" -> 2    \* entries of `members`
               [] CyFld(c) \/ CyMem(c) -> 1 [] OTHER -> 0
-Glob(c)  == CASE c \in {"GInt", "GStr"} \/ CyGlob(c) -> {"GG"} [] c = "ClsTab" -> {"Tab"} [] OTHER -> {}
-Req(c)   == CASE c = "ReqB" -> {"b"} [] c = "ReqA" -> {"a"} [] IsCy(c) -> {CyTarget(c)} [] OTHER -> {}
+Glob(c)  == CASE c \in {"GInt", "GStr"} \/ CyGlob(c) -> {"GG"} [] c = "ClsTab" -> {"Tab"}
+              [] c = "ObjDef" -> {"obj"} [] c \in {"GReqA", "GReqB"} -> {"LV"} [] OTHER -> {}
+Req(c)   == CASE c \in {"ReqB", "GReqB"} -> {"b"} [] c \in {"ReqA", "GReqA"} -> {"a"} [] IsCy(c) -> {CyTarget(c)} [] OTHER -> {}
 DOff(c)  == c = "DiagOff"
 \* generic header: the parameter names a declaration of the type in this file carries
 Gen(c)   == CASE c = "GenBox" -> {<<"Box", <<"T">>>>} [] c = "GenAlias" -> {<<"Opt", <<"T">>>>} [] OTHER -> {}
@@ -147,6 +175,8 @@ MetaMethods == {"add", "call"}
 Uses(c)  == CASE c = "UseFoo" -> {"Foo", "GG"} [] c = "ReqB" -> {"mod:b"} [] c = "ReqA" -> {"mod:a"} [] c = "ClsSub" -> {"Foo"}
               [] c = "UseBox" -> {"Box", "Opt"} [] c = "UseOp" -> {"Foo"} [] c = "UseCy" -> {"Tab", "GG", "Foo"}
               [] c = "FooInh" -> {"Base"} [] c = "UseHp" -> {"Foo", "Base"}
+              [] c \in {"ObjBar1", "ObjBar2", "UseObj"} -> {"obj", "Obj"} [] c \in {"MetaX", "TabX", "UseTabX"} -> {"Tab"}
+              [] c = "GReqA" -> {"mod:a"} [] c = "GReqB" -> {"mod:b"} [] c = "UseLV" -> {"LV"}
               [] IsCy(c) -> {"mod:" \o CyTarget(c)} \cup (IF CyMem(c) THEN {"Tab"} ELSE {}) [] OTHER -> {}
 Partial(t) == t \in {"Foo", "Box"}   \* Id, Color, Opt, Tab are not partial: declaring them twice is already a diagnostic
 
@@ -171,7 +201,12 @@ EmptyDb == [typeLocs |-> [t \in TypeNames |-> {}],
             doff |-> {},
             gen |-> {},                 \* <<type, params, id>>: generic header registered by file id
             ops |-> {},                 \* <<type, meta method, result, id>>
-            lmem |-> {}]                \* <<type, key, id>>: the non-declaration member the owner keeps for the key
+            lmem |-> {},                \* <<type, key, id>>: the non-declaration member the owner keeps for the key
+            gmem |-> {},                \* <<global, key, id>>: members of the owner GlobalPath(global)
+            bind |-> {},                \* <<global, type, id>>: file id binds the inferred type of the global to the class
+            migr |-> {},                \* <<type, key, id>>: members of a global path listed under Type(type) as well
+            exp |-> {},                 \* ids of the modules whose inferred export ({ x = 1 }) is known
+            gval |-> {}]                \* <<global, id, type>>: inferred type of the global's declaration in file id
 
 \* module name -> the live, indexed file with that name (flat workspace: module name = path letter)
 ModTarget(d, is, r) == {i \in d.modules : \E p \in PathSet : is[p] = i /\ p = r}
@@ -196,13 +231,26 @@ Add1(d, is, i, c) ==
      !.doff = IF DOff(c) THEN @ \cup {i} ELSE @,
      \* preprocess_type_generic_headers -> add_generic_params: one entry per declaring file that carries a header
      !.gen = @ \cup {<<g[1], g[2], i>> : g \in Gen(c)},
-     !.ops = @ \cup {<<o[1], o[2], o[3], i>> : o \in Opr(c)}]
+     !.ops = @ \cup {<<o[1], o[2], o[3], i>> : o \in Opr(c)},
+     \* the declaration pipeline lists `function obj.bar()` under the owner GlobalPath(obj)
+     !.gmem = @ \cup {<<m[1], m[2], i>> : m \in GMem(c)}]
 
 \* phase 2: Lua pipeline. LuaMemberIndex::add_member_to_owner for a non-declaration member: kept only when the
 \* owner has no member of that key yet (first come, first kept); the owner must be a declared type
+\* bind_type of the global's declaration -> migrate_global_members_when_type_resolve: every member that
+\* GlobalPath(g) lists at that moment (the declaration pipeline has put the members of ALL files of the batch there)
+\* is ALSO added to Type(t) (add_member_to_owner: an id is listed once per owner and key, however often it is
+\* migrated).  The Lua pipeline of the file that DEFINES the member does not add it to the class when the global is
+\* already bound (lua/stats.rs, prefix type Ref: `set_member_owner` only), so a member that is re-analysed alone is
+\* listed under the class again only when the binding file is analysed again (KF_Migr).
+\* Entries leave the lists only with the file that defines the member (LuaMemberIndex::remove).
 Add2(d, is, i, c) ==
   [d EXCEPT !.lmem = @ \cup {<<m[1], m[2], i>> : m \in {x \in LMem(c) : d.typeLocs[x[1]] # {}
-                                                                     /\ ~\E y \in d.lmem : y[1] = x[1] /\ y[2] = x[2]}}]
+                                                                     /\ ~\E y \in d.lmem : y[1] = x[1] /\ y[2] = x[2]}},
+            !.bind = @ \cup {<<b[1], b[2], i>> : b \in GBind(c)},
+            !.exp = IF Exports(c) THEN @ \cup {i} ELSE @,
+            !.gval = @ \cup {<<v[1], i, IF ModTarget(d, is, v[2]) \cap d.exp # {} THEN "1" ELSE "any">> : v \in GVal(c)},
+            !.migr = @ \cup UNION {{<<b[2], m[2], m[3]>> : m \in {x \in d.gmem : x[1] = b[1]}} : b \in GBind(c)}]
 
 Add(d, is, i, c) == Add2(Add1(d, is, i, c), is, i, c)
 
@@ -222,7 +270,12 @@ Remove(d, i) ==
      !.doff = @ \ {i},
      !.gen = {g \in @ : g[3] # i},
      !.ops = {o \in @ : o[4] # i},
-     !.lmem = {m \in @ : m[3] # i}]
+     !.lmem = {m \in @ : m[3] # i},
+     !.gmem = {m \in @ : m[3] # i},
+     !.bind = {b \in @ : b[3] # i},
+     !.migr = {m \in @ : m[3] # i},
+     !.exp = @ \ {i},
+     !.gval = {v \in @ : v[2] # i}]
 
 \* FileDependencyRelation::get_best_analysis_order(input) over the edges `deps` (<<i, j>>: i requires j):
 \* Kahn's algorithm; roots and every batch of newly released files sorted by file id (no meta files here); what
@@ -256,6 +309,24 @@ AddSeq(d, fs, is, order) ==
 
 RegisterAll(d, idset) == [d EXCEPT !.modules = @ \cup idset]
 
+\* ---- workspace roots (C11, second seeded round) ----
+\* A workspace over the library contents has THREE roots: a.lua lives in the library root /liba, b.lua in the
+\* library root /libb (added in this order, so WorkspaceId(liba) < WorkspaceId(libb)), everything else in the main
+\* root /ws.  module_analyze analyses a batch root by root: std, then the libraries IN THE ORDER OF THEIR WORKSPACE
+\* IDS, then main; inside a root as described above.  The module name of a file is its path letter in every root.
+LibContents == {"ExpX", "GReqA", "GReqB", "UseLV"}
+LibLayout(fs) == \E p \in PathSet : fs[p] \in LibContents
+DirOf(fs, p) == IF LibLayout(fs) THEN (CASE p = "a" -> "/liba" [] p = "b" -> "/libb" [] OTHER -> "/ws") ELSE "/ws"
+LibDirs(fs) == IF LibLayout(fs) THEN <<"/liba", "/libb">> ELSE <<>>
+RootOrder(fs) == LibDirs(fs) \o <<"/ws">>
+RootRank(fs, p) == CHOOSE k \in 1..Len(RootOrder(fs)) : RootOrder(fs)[k] = DirOf(fs, p)
+RECURSIVE AddRoots(_, _, _, _, _)
+AddRoots(d, fs, is, order, roots) ==
+  IF roots = <<>> THEN d
+  ELSE AddRoots(AddSeq(d, fs, is, SelectSeq(order, LAMBDA i : DirOf(fs, PathOfId(is, i)) = Head(roots))),
+                fs, is, order, Tail(roots))
+AddBatch(d, fs, is, order) == AddRoots(d, fs, is, order, RootOrder(fs))
+
 \* ids handed out by registering the live files in path order
 RegIds(fs) == LET RECURSIVE F(_, _) F(k, next) ==
                     IF k > Len(Paths) THEN [p \in {} |-> 0]
@@ -285,7 +356,16 @@ Ideal(fs, is) ==
                    ord == BestOrder(ideps, SetToSeq({is[p] : p \in live}))
                    contrib(m) == {k \in 1..Len(ord) : m \in LMem(fs[PathOfId(is, ord[k])])}
                    all == UNION {LMem(fs[p]) : p \in live}
-               IN {<<m[1], m[2], ord[Min(contrib(m))]>> : m \in {x \in all : declaring(x[1]) # {}}}]
+               IN {<<m[1], m[2], ord[Min(contrib(m))]>> : m \in {x \in all : declaring(x[1]) # {}}},
+      gmem |-> UNION {{<<m[1], m[2], is[p]>> : m \in GMem(fs[p])} : p \in live},
+      bind |-> UNION {{<<b[1], b[2], is[p]>> : b \in GBind(fs[p])} : p \in live},
+      \* the members of a global path are members of the class its declaration is bound to, once each
+      migr |-> UNION {UNION {{<<b[2], m[2], is[q]>> : m \in {x \in GMem(fs[q]) : x[1] = b[1]}} : q \in live}
+                      : b \in UNION {GBind(fs[p]) : p \in live}},
+      exp |-> {is[p] : p \in {q \in live : Exports(fs[q])}},
+      \* a fresh analysis goes root by root (RootOrder): the export of a module in an EARLIER root is known
+      gval |-> UNION {{<<v[1], is[p], IF v[2] \in live /\ Exports(fs[v[2]]) /\ RootRank(fs, v[2]) < RootRank(fs, p)
+                                       THEN "1" ELSE "any">> : v \in GVal(fs[p])} : p \in live}]
 
 \* a workspace whose fresh result depends on the analysis order (C11 interaction): a type whose declaring files
 \* disagree on the description
@@ -304,11 +384,13 @@ CycleSensitive(fs) == \E m \in UNION {LMem(fs[p]) : p \in Live(fs)} :
 OrderSensitive(fs) == SlotSensitive(fs) \/ CycleSensitive(fs)
 
 Components == {"typeLocs", "slot", "slotOwners", "supers", "members", "nmem", "globals", "deps", "modules", "doff",
-               "gen", "ops", "lmem"}
+               "gen", "ops", "lmem", "gmem", "bind", "migr", "exp", "gval"}
 Get(d, k) == CASE k = "typeLocs" -> d.typeLocs [] k = "slot" -> d.slot [] k = "slotOwners" -> d.slotOwners
                [] k = "supers" -> d.supers [] k = "members" -> d.members [] k = "nmem" -> d.nmem [] k = "globals" -> d.globals
                [] k = "deps" -> d.deps [] k = "modules" -> d.modules [] k = "doff" -> d.doff
                [] k = "gen" -> d.gen [] k = "ops" -> d.ops [] k = "lmem" -> d.lmem
+               [] k = "gmem" -> d.gmem [] k = "bind" -> d.bind [] k = "migr" -> d.migr
+               [] k = "exp" -> d.exp [] k = "gval" -> d.gval
 Dev(d, fs, is) == {k \in Components : Get(d, k) # Get(Ideal(fs, is), k)}
 
 \* ---- sizes of the real maps that the model predicts exactly (names = DbIndex::verif_sizes) ----
@@ -361,7 +443,14 @@ Obs(d, fs, is) ==
                                   ELSE IF d.slot[t] = "none" THEN "" ELSE d.slot[t]],
    typelocs |-> [t \in TypeNames |-> {PathOfId(is, i) : i \in d.typeLocs[t]}],
    globals |-> [g \in GlobalNames |-> [k \in 1..Len(d.globals[g]) |-> PathOfId(is, d.globals[g][k])]],
-   members |-> [t \in TypeNames |-> {<<m[2], PathOfId(is, m[3])>> : m \in {x \in d.members \cup d.lmem : x[1] = t}}],
+   \* one entry per member id the owner Type(t) lists (the harness compares with multiplicity)
+   members |-> [t \in TypeNames |-> IF d.typeLocs[t] = {} THEN {} ELSE
+                  {<<m[2], PathOfId(is, m[3])>> : m \in {x \in d.members \cup d.lmem \cup d.migr : x[1] = t}}],
+   \* ... and per member id the owner GlobalPath(g) lists, for the globals that have a declaration
+   gmembers |-> [g \in {"obj"} |-> IF d.globals[g] = <<>> THEN {} ELSE
+                  {<<m[2], PathOfId(is, m[3])>> : m \in {x \in d.gmem : x[1] = g}}],
+   \* inferred type of every declaration of the global: <<path, type>>
+   gtype |-> [g \in {"LV"} |-> {<<PathOfId(is, v[2]), v[3]>> : v \in {x \in d.gval : x[1] = g}}],
    \* generic parameters of the type: the header of the declaring file with the lowest id
    gen |-> [t \in TypeNames |-> LET gs == {g \in d.gen : g[1] = t} IN
                                  IF gs = {} THEN <<>> ELSE (CHOOSE g \in gs : \A h \in gs : g[3] <= h[3])[2]],
@@ -373,7 +462,7 @@ Obs(d, fs, is) ==
    supers |-> [t \in TypeNames |-> {x[2] : x \in {y \in d.supers : y[1] = t}}],
    \* member lookup on an instance of t (find_members): own members and those of every declared ancestor
    inherit |-> [t \in TypeNames |-> {<<m[2], PathOfId(is, m[3])>> :
-                                       m \in {x \in d.members \cup d.lmem : x[1] \in Ancestors(d, t)}}],
+                                       m \in {x \in d.members \cup d.lmem \cup d.migr : x[1] \in Ancestors(d, t)}}],
    modules |-> [r \in PathSet |-> LET tg == ModTarget(d, is, r) IN
                                    IF tg = {} THEN "<none>" ELSE PathOfId(is, CHOOSE i \in tg : TRUE)]]
 
@@ -394,7 +483,8 @@ WellFormed(fs) ==
                                         /\ IsCy(fs[CyTarget(fs[p])])
   /\ \A t \in TypeNames : ~Partial(t) => Cardinality({p \in Live(fs) : t \in Decl(fs[p])}) <= 1
   /\ "b" \in PathSet => fs["b"] # "ReqB"             \* no self-require
-  /\ fs["a"] # "ReqA"
+  /\ fs["a"] # "ReqA" /\ fs["a"] # "GReqA"
+  /\ "b" \in PathSet => fs["b"] # "GReqB"
 
 InitFiles == {fs \in [PathSet -> Contents \cup {None}] : WellFormed(fs) /\ Live(fs) # {}}
 
@@ -407,7 +497,7 @@ Init ==
         idset == IdOf(fs, is) IN
     \E order \in (IF Batch THEN Perms(idset) ELSE {SetToSeq(idset)}) :
       /\ files = fs /\ ids = is /\ nextId = Cardinality(idset) + 1
-      /\ db = AddSeq(RegisterAll(EmptyDb, idset), fs, is, order)
+      /\ db = AddBatch(RegisterAll(EmptyDb, idset), fs, is, order)
       /\ anchor = [ok |-> TRUE, files |-> fs, at |-> 0] /\ n = 0
       /\ hist = <<[H(IF Batch THEN "batch" ELSE "load", "", "")
                    EXCEPT !.order = [k \in 1..Len(order) |-> PathOfId(is, order[k])], !.init = fs]>>
@@ -427,7 +517,8 @@ FullStepOf(h, fs, is, d, anc) ==
    same_as |-> IF last.op = "update" /\ anc.ok /\ anc.files = fs THEN anc.at ELSE 0 - 1,
    fresh |-> last.op # "update",
    independent |-> IF removal THEN Independent(fs, last.p, last.c) ELSE TRUE,
-   absent |-> IF removal THEN <<last.p>> ELSE <<>>]
+   absent |-> IF removal THEN <<last.p>> ELSE <<>>,
+   dirs |-> [p \in PathSet |-> DirOf(fs, p)], libs |-> LibDirs(fs)]
 SelOf(last, fs, anc) ==
   CASE EmitSel = "same" -> last.op = "update" /\ anc.ok /\ anc.files = fs
     [] EmitSel = "reindex" -> last.op = "reindex"
@@ -479,7 +570,7 @@ Reindex ==
   /\ "reindex" \in Ops /\ n < MaxSteps /\ Live(files) # {}
   /\ hist[Len(hist)].op \notin {"reindex", "load", "batch"}
   /\ LET idset == IdOf(files, ids)
-         d == AddSeq(RegisterAll(EmptyDb, idset), files, ids, SetToSeq(idset))
+         d == AddBatch(RegisterAll(EmptyDb, idset), files, ids, SetToSeq(idset))
          anc == [ok |-> TRUE, files |-> files, at |-> n + 1]
          h == Append(hist, H("reindex", "", "")) IN
      /\ db' = d /\ n' = n + 1 /\ anchor' = anc /\ UNCHANGED <<files, ids, nextId>> /\ hist' = h
@@ -514,7 +605,11 @@ InheritIdeal == /\ Obs(db, files, ids).supers = Obs(IdealNow, files, ids).supers
 \* the property slot is single valued: the last analysed contributor wins and removing any contributor drops it
 KF_Slot == "slot" \in DevNow
 C08_Strict == (anchor.ok /\ files = anchor.files) => DevNow = {}            \* violated: this is the known finding
-C08_Model == (anchor.ok /\ files = anchor.files) => (DevNow = {} \/ (KF_Slot /\ DevNow = {"slot"}))
+\* the members of a global path are listed under the class of the global by the analysis of the BINDING file only:
+\* a member whose file is re-analysed alone drops out of Type(class) until the binding file is analysed again, and
+\* stays listed there when the binding file goes away (the lists are owned by the files of the MEMBERS only)
+KF_Migr == "migr" \in DevNow
+C08_Model == (anchor.ok /\ files = anchor.files) => DevNow \subseteq {"slot", "migr"}
 
 \* C11: the batch order must not matter (checked on the initial batch of every workspace when Batch = TRUE)
 Confluent == (Batch /\ n = 0 /\ ~OrderSensitive(files)) => DevNow = {}
